@@ -125,6 +125,10 @@ def px_enum(agg, which, tier, features=()):
     return o
 
 
+# the three flag predicates of `px emit --cfgflags`: the third is the key-value form of the first
+PX_FLAGS = ["vp0", "vp1", 'vp0="x"']
+
+
 def px_conformance(agg, prop, tier, features=(), cfgflags=None):
     """Compiles and runs the generated conformance programs with the real rustc / real proc macros."""
     binary = build("px", "chk", features, rustflags_extra="")
@@ -141,7 +145,7 @@ def px_conformance(agg, prop, tier, features=(), cfgflags=None):
     tgt = os.path.join(TARGET, "pxgen" + ("-" + "-".join(features) if features else "") + ("" if cfgflags is None else "-flags"))
     env = env_base()
     env["CARGO_TARGET_DIR"] = tgt
-    env["RUSTFLAGS"] = "--cfg gecs_verif" + ("" if cfgflags is None else "".join(" --cfg vp%d" % i for i in range(3) if cfgflags & (1 << i)) + " --check-cfg cfg(vp0,vp1,vp2)")
+    env["RUSTFLAGS"] = "--cfg gecs_verif" + ("" if cfgflags is None else "".join(" --cfg " + PX_FLAGS[i] for i in range(3) if cfgflags & (1 << i)) + ' --check-cfg cfg(vp0,vp1) --check-cfg cfg(vp0,values("x"))')
     t1 = time.time()
     viol = []
     done = 0
@@ -210,7 +214,7 @@ def px_conformance(agg, prop, tier, features=(), cfgflags=None):
                 viol.append({"prop": e["prop"], "oracle": "wrong-diagnostic", "msg": "expected the diagnostic '%s', rustc said: %s" % (e["expect"], got[:2]), "program": e["program"]})
     if known_f7:
         agg["known_hits"]["C16:cfg-on-oneof-rejected"] = agg["known_hits"].get("C16:cfg-on-oneof-rejected", 0) + known_f7
-    agg["legs"].append({"engine": "px+rustc", "property": prop, "cfg_flags": None if cfgflags is None else ["vp%d" % i for i in range(3) if cfgflags & (1 << i)], "positive_cases_compiled_and_run": done, "queries_run": info["queries"], "negative_programs_compiled": negs_checked, "forbid_unsafe_code": True, "wall_s": round(time.time() - t1, 1)})
+    agg["legs"].append({"engine": "px+rustc", "property": prop, "cfg_flags": None if cfgflags is None else [PX_FLAGS[i] for i in range(3) if cfgflags & (1 << i)], "positive_cases_compiled_and_run": done, "queries_run": info["queries"], "negative_programs_compiled": negs_checked, "forbid_unsafe_code": True, "wall_s": round(time.time() - t1, 1)})
     agg["programs"] = agg.get("programs", 0) + done + negs_checked
     for c in list(cases.values())[:2]:
         agg["samples"].append(dict(c, engine="px+rustc"))
